@@ -20,7 +20,7 @@ ASSUMPTIONS = ["term model: bare term = case-folded member of the tag's schema p
                "short-form prefix (written from the property text)",
                "composite semantics are judged only through OR/AND algebra, reorder-invariance, repeatability, non-mutation"]
 MIN_MONITOR_EVALS = {"term-model": 1500, "or-is-disjunction": 2000, "and-implies-both": 2000, "and-symmetric": 2000,
-                     "and-associative": 1000, "and-regrouping": 500, "and-needs-distinct-tags": 100, "reorder-invariant": 2000,
+                     "and-associative": 1000, "and-regrouping": 500, "group-form-model": 2000, "and-needs-distinct-tags": 100, "reorder-invariant": 2000,
                      "repeatable-nonmutating": 2000, "compile-or-valueerror": 2000, "unbalanced-rejected": 500,
                      "batch-agrees": 200}
 
@@ -66,6 +66,52 @@ def matching_tags(items, kind, text, oracle):
             out.append(id(t))
         elif kind == "star" and short_form(t, oracle).startswith(text):
             out.append(id(t))
+    return out
+
+
+def tag_matches(t, kind, text, oracle):
+    text = text.casefold()
+    if kind == "bare":
+        return text in [p.casefold() for p in t["node"].split("/")]
+    if kind == "quoted":
+        return short_form(t, oracle) == text
+    return short_form(t, oracle).startswith(text)
+
+
+def all_groups(items):
+    for it in items:
+        if it["t"] == "group":
+            yield it
+            yield from all_groups(it["kids"])
+
+
+def desc_tags(g):
+    return [t for t, _ in annot.walk(g["kids"]) if t["t"] == "tag"]
+
+
+def group_models(items, A, B, C, oracle):
+    """Documented meaning of the group-scoped forms for simple terms A, B (and optional C):
+    [A && B]  a parenthesised group containing both at any level (two different tags)
+    {A && B}  a parenthesised group with both directly at the same level
+    {A && B:} ... and nothing else in that group
+    {A && B: C} ... and optionally one more tag matching C, nothing else"""
+    def pair(tags):
+        return any(tag_matches(a, *A, oracle) and tag_matches(b, *B, oracle) for a in tags for b in tags if a is not b)
+    out = {"desc": False, "same": False, "only": False, "opt": False}
+    for g in all_groups(items):
+        direct = [k for k in g["kids"] if k["t"] == "tag"]
+        if pair(desc_tags(g)):
+            out["desc"] = True
+        if pair(direct):
+            out["same"] = True
+            if len(g["kids"]) == 2 and len(direct) == 2:
+                out["only"] = True
+                out["opt"] = True
+        if len(g["kids"]) == 3 and len(direct) == 3:
+            for c in direct:
+                rest = [x for x in direct if x is not c]
+                if tag_matches(c, *C, oracle) and pair(rest):
+                    out["opt"] = True
     return out
 
 
@@ -243,6 +289,26 @@ def check_case(case, rec):
             if len(set(got)) != 1:
                 rec.violation("regrouping or reordering a conjunction of terms changes the answer",
                               dict(text=case["text"], a=f"{t[0]} && {t[1]}", b=f"{t[2]} && {t[3]}", forms=forms, answers=got))
+    # group-scoped forms on simple terms against the documented meaning
+    tl = [tuple(t) for t in case["terms"]]
+    if len(tl) >= 2:
+        for _ in range(8):
+            A, B, C = rng.choice(tl), rng.choice(tl), rng.choice(tl)
+            ra, rb, rc = render_term(*A), render_term(*B), render_term(*C)
+            want = group_models(items, A, B, C, oracle)
+            forms = {"desc": f"[{ra} && {rb}]", "same": "{" + f"{ra} && {rb}" + "}", "only": "{" + f"{ra} && {rb}:" + "}",
+                     "opt": "{" + f"{ra} && {rb}: {rc}" + "}"}
+            for k, q in forms.items():
+                try:
+                    got = run(q)
+                except Exception as ex:  # noqa
+                    rec.violation(f"search raised {type(ex).__name__}", dict(text=case["text"], query=q))
+                    continue
+                rec.mon("group-form-model")
+                rec.count("group-form", f"{k}={got}")
+                if got != want[k]:
+                    rec.violation(f"group-scoped form ({k}) differs from its documented meaning",
+                                  dict(text=case["text"], query=q, model=want[k]))
     # distinct tags: two simple terms whose only matches are one and the same tag
     terms = case["terms"]
     for i in range(len(terms)):
